@@ -19,7 +19,7 @@ RULE = (
     "0-3 trace functions (vector, scalar, integer-valued, matrix-valued, overlapping keys), adapters none / step "
     "size / +variance / +covariance, stager default / single / windowed with generated windows, storage in-memory "
     "/ temporary memmap / user directory, n_process in {1, 2, 3, None}, initial states as ChainState / dict / "
-    "position-only, the generic sampler with custom transitions and the four HMC classes, 7 generator types. "
+    "position-only, progress display off / a user-supplied progress_bar_class / monitored statistics, the generic sampler with custom transitions and the four HMC classes, 7 generator types. "
     "An independent per-process JSONL log is written by picklable wrapper transitions (statistics returned by "
     "each transition, post-iteration state, chain id and iteration counter carried as extra state variables). "
     "Oracle: every trace row equals the harness's own trace definition applied to the logged post-iteration "
@@ -242,7 +242,8 @@ def run_one(res, cfg, tag):
                          f"[{tag}] an adapter failed to initialise for a chain (documented as non-fatal) and the next "
                          f"stage then raised ValueError: {e}")
                 return None, None
-            res.fail(f"C13:sample_chains:raises:{type(e).__name__}" + (":n_process=None" if cfg["n_process"] is None else ""),
+            res.fail(f"C13:sample_chains:raises:{type(e).__name__}" + (":n_process=None" if cfg["n_process"] is None else "")
+                     + (":progress_bar_class" if cfg.get("progress") == "custom-class" else ""),
                      f"[{tag}] sample_chains raised {type(e).__name__}: {e}")
             return None, None
         finally:
@@ -278,7 +279,8 @@ def run_case(case) -> Result:
     res = Result()
     cfg = case
     res.classes += ["sampler:" + cfg["sampler"], "storage:" + cfg["storage"], f"n_process:{cfg['n_process']}",
-                    "adapters:" + cfg["adapters"], "stager:" + cfg["stager"], "init:" + cfg["init"], "rng:" + cfg["rng"]]
+                    "adapters:" + cfg["adapters"], "stager:" + cfg["stager"], "init:" + cfg["init"], "rng:" + cfg["rng"],
+                    "progress:" + cfg.get("progress", "off")]
     snap, note = run_one(res, cfg, f"{cfg['storage']}/np={cfg['n_process']}")
     if note:
         res.discarded = True
